@@ -337,6 +337,8 @@ type db struct {
 	onQuery func(q string)    // called with every client query text before it is sent
 
 	downNode *simNode // node made unreachable by "nodedown"
+	// othersDone counts the clients other than client 0 that have run all their ops
+	othersDone int
 }
 
 // dbOpts configures execDBOpt.
@@ -916,6 +918,9 @@ func execDBOpt(o dbOpts) func(c *simrt.Ctx) {
 						d.extra(d, op)
 					}
 					c.OpDone()
+				}
+				if ci > 0 {
+					d.othersDone++
 				}
 			})
 		}
